@@ -353,8 +353,8 @@ class C08(Prop):
         if stream == "main":
             for d in range(0, 7):
                 cases.append({"kind": "swapmat", "d": d})
-        nsplit = ctx.scale(60, 600) * budget_scale
-        ntebd = ctx.scale(70, 900) * budget_scale
+        nsplit = ctx.scale(50, 600) * budget_scale
+        ntebd = ctx.scale(60, 900) * budget_scale
         for j in range(nsplit):
             cases.append({"kind": "split", "seed": rng.randrange(10 ** 9), "malformed": j % 6 == 5})
         for j in range(ntebd):
@@ -634,17 +634,23 @@ class C08(Prop):
         ob["gates"] = gates_done
         ob["step_states"] = step_states
         ob["structure0"] = self._structure(t0)
-        # the library's own loop on a second instance must give bit-identical tensors
-        if "step_error" not in ob:
-            try:
-                tebd2 = TEBD(t0, realise_spec(spec)[2], spec["dt"], spec["dt"] * case["nsteps"], [], svd)
-                for _ in range(case["nsteps"]):
-                    tebd2.run_one_time_step()
+        # the library's own loop (run_one_time_step) on a second instance: this is what the oracle judges;
+        # it must also give bit-identical tensors to the gate-by-gate run (tie)
+        try:
+            tebd2 = TEBD(t0, realise_spec(spec)[2], spec["dt"], spec["dt"] * case["nsteps"], [], svd)
+            loop_states = []
+            for _ in range(case["nsteps"]):
+                tebd2.run_one_time_step()
+                loop_states.append({"psi": self._dense(tebd2.state, ids), "bonds": self._bond_dims(tebd2.state),
+                                    "structure": self._structure(tebd2.state)})
+            ob["loop_states"] = loop_states
+            if "step_error" not in ob:
                 s2 = snapshot(tebd2.state)
                 same = (s2 == snapshot(st)) and all(np.array_equal(tebd2.state._tensors.data[k], st._tensors.data[k]) for k in s2["tkeys"])
                 ob["loop_identical"] = bool(same)
-            except Exception as e:  # noqa
-                ob["loop_identical"] = f"{type(e).__name__}: {e}"
+        except Exception as e:  # noqa
+            ob["loop_error"] = f"{type(e).__name__}: {e}"
+            ob["loop_identical"] = ob["loop_error"]
         return ob
 
     @staticmethod
@@ -736,7 +742,8 @@ class C08(Prop):
                 exprs.append(f"(let mdim := {coq_mdim(spec)} in let ds := {ds} in "
                              f"match {coq_steps_expr(spec, idm)} with "
                              f"| Some steps => match @exponentiate_splitting nat nat mdim ds steps with "
-                             f"  | Some gs => Some (map gate_obs gs, build_and_step {coq_nat(contr)} {opl} (mk_tgates (repeat_list {coq_nat(ob['nsteps'])} gs) {kb})) "
+                             f"  | Some gs => let tg := mk_tgates (repeat_list {coq_nat(ob['nsteps'])} gs) {kb} in "
+                             f"     Some (map gate_obs gs, build_and_step {coq_nat(contr)} {opl} tg, build_and_hyps {coq_nat(contr)} {opl} tg) "
                              f"  | None => None end "
                              f"| None => None end)")
             idx.append(i)
@@ -833,7 +840,7 @@ class C08(Prop):
             return None if mo is None else f"TEBD construction raised {ob['construct_error']} but the model returns gates"
         if mo is None:
             return "model rejects the splitting, implementation constructs the TEBD object"
-        mgates, mrest = mo[1]
+        mgates, mrest, mhyps = mo[1]
         mobs0, mtrace, mkept = mrest[:5], mrest[5], mrest[6]      # left-nested pairs print flat
         d = self._compare_gates(ob["spec"], ob["exponents"], gates_from_model(mgates, idm), None)
         if d:
@@ -877,11 +884,15 @@ class C08(Prop):
         if len(mtrace) != len(gates):
             return f"{len(gates)} gates processed by the implementation, {len(mtrace)} by the model"
         if "step_error" not in ob:
-            self._inst[0] += 1
+            self._inst[0] += 2
             if mkept is not None and mkept[1] is True:
                 self._inst[1] += 1
             else:
                 self._inst[2].append(f"structure_kept is not true on the model state after the step (seed {case['seed']})")
+            if mhyps is True:
+                self._inst[1] += 1
+            else:
+                self._inst[2].append(f"pair_okb (hypotheses of C08_two_site_gate_restores) false before some two-site gate (seed {case['seed']})")
             if ob.get("loop_identical") is not True:
                 return f"run_one_time_step on a second instance does not reproduce the gate-by-gate run: {ob.get('loop_identical')}"
         elif mkept is not None:
@@ -968,6 +979,8 @@ class C08(Prop):
     def _oracle_tebd(self, case, ob):
         if "construct_error" in ob:
             return f"valid splitting rejected at construction: {ob['construct_error']}"
+        if "loop_error" in ob:
+            return f"run_one_time_step raised {ob['loop_error']}"
         if "step_error" in ob:
             return f"run raised {ob['step_error']}"
         if not ob.get("caller_unchanged", True):
@@ -990,7 +1003,7 @@ class C08(Prop):
             pos += ob["nopen"][k]
         exp = expected_gates(spec, dims)
         psi = np.array(ob["psi0"], dtype=complex)
-        for stepno, ss in enumerate(ob["step_states"]):
+        for stepno, ss in enumerate(ob["loop_states"]):
             for e in exp:
                 if e[0] == "swap":
                     a, b = e[1]
